@@ -53,6 +53,16 @@ func c08APL(c *Ctx, r *Report) {
 		}
 		r.fn(name)
 		found, ceil, where := ceilQuot(fn)
+		if !found {
+			// the computation may live in a helper both share (APLPrefix.wireAddress)
+			allInstrs(fn, func(in ssa.Instruction) {
+				if call, ok := in.(*ssa.Call); ok {
+					if g := call.Call.StaticCallee(); g != nil && g.Pkg == fn.Pkg && len(g.Blocks) > 0 && !found {
+						found, ceil, where = ceilQuot(g)
+					}
+				}
+			})
+		}
 		var problems []string
 		switch {
 		case !found:
